@@ -335,7 +335,7 @@ func c08Specs(tier string) []*XSpec {
 	mk := func(c *store.VerifCfg, keys []string, fillers, d int) *XSpec {
 		al := perKey(keys, Op{K: "set", V: "s"}, Op{K: "del"})
 		al = append(al, perKey(keys[:1], Op{K: "set", V: "s", Rev: 2}, Op{K: "setsame"})...)
-		al = append(al, Op{K: "restart", A: []int{0}}, Op{K: "restart", A: []int{1}})
+		al = append(al, Op{K: "restart", A: []int{0}}, Op{K: "restart", A: []int{1}}, Op{K: "restart", A: []int{4}})
 		return &XSpec{Property: "C08", Name: c.Name, Cfg: c, Alphabet: al, Depth: d, Keys: keys, Exec: c08Exec(fillers),
 			Prune: func(hist []Op, op Op) bool {
 				ngc := 0
@@ -376,7 +376,7 @@ func c08Specs(tier string) []*XSpec {
 
 func C08(job *Job, r *Report) {
 	r.Level = "model_checking"
-	r.Rule = "every history up to the stated depth over {set, set with explicit revision, same-value set, delete, restart with / without the tree dump, every accepted GC range (merge off)} on keys a,b (one leaf), c (sibling leaf), d (other bucket), on top of filler populations straddling the list-keys threshold (4 here, 256 default) and the C-search threshold (100); in every reached state the listing of every prefix of length 0..16 along the key paths and of absent paths is (1) recomputed independently from the content the store reports through ?key: listing kind, counts = live keys under the prefix, item sets = exactly the live keys with 64-bit hash, version, value hash, tombstone lines only for deleted keys; (2) compared (node lines exactly, item lines as a set) with a canonical store built by inserting the same content once in sorted order; plus the in-package leaf harness for all eight depth+height classes (coverage.leaf_roundtrip)"
+	r.Rule = "every history up to the stated depth over {set, set with explicit revision, same-value set, delete, restart with / without the tree dump, exit without Close (data flushed, hints dumped, old tree dump + newer hints replayed at the next start), every accepted GC range (merge off)} on keys a,b (one leaf), c (sibling leaf), d (other bucket), on top of filler populations straddling the list-keys threshold (4 here, 256 default) and the C-search threshold (100); in every reached state the listing of every prefix of length 0..16 along the key paths and of absent paths is (1) recomputed independently from the content the store reports through ?key: listing kind, counts = live keys under the prefix, item sets = exactly the live keys with 64-bit hash, version, value hash, tombstone lines only for deleted keys; (2) compared (node lines exactly, item lines as a set) with a canonical store built by inserting the same content once in sorted order; plus the in-package leaf harness for all eight depth+height classes (coverage.leaf_roundtrip)"
 	r.Assumptions = []string{"node-hash formulas are not pinned, only history independence and counts", "memfs models POSIX file semantics"}
 	for _, x := range c08Specs(job.Tier) {
 		if job.Part != "" && job.Part != x.Name {
